@@ -636,7 +636,7 @@ fn show_v(v: Option<&Variable>) -> String {
             let val = match &v.value {
                 None => "~".to_string(),
                 Some(Value::Scalar(x)) => x.clone(),
-                Some(Value::Array(xs)) => xs.join(":"),
+                Some(Value::Array(xs)) => format!("@{}", xs.join(":")),
             };
             format!("{}/{}/{}", val, v.is_exported as u8, v.is_read_only() as u8)
         }
@@ -687,8 +687,24 @@ fn parse_script(body: &str) -> Option<Vec<(String, Vec<Stmt>)>> {
     Some(parts)
 }
 
+/// `n=@a.b` is rendered as the array assignment `n=(a b)`
+fn render_assign(t: &str) -> String {
+    match t.split_once("=@") {
+        Some((n, v)) => format!("{n}=({})", v.split('.').filter(|e| !e.is_empty()).collect::<Vec<_>>().join(" ")),
+        None => t.to_string(),
+    }
+}
+
+fn parse_val(v: &str) -> Value {
+    match v.strip_prefix('@') {
+        Some("") => Value::array(Vec::<String>::new()),
+        Some(r) => Value::array(r.split('.')),
+        None => Value::scalar(v),
+    }
+}
+
 fn render_stmt(st: &Stmt) -> Option<String> {
-    let pre = st.pre.join(" ");
+    let pre = st.pre.iter().map(|t| render_assign(t)).collect::<Vec<_>>().join(" ");
     let post = st.post.join(" ");
     let cmd = match st.kind.as_str() {
         "A" => pre,
@@ -696,7 +712,21 @@ fn render_stmt(st: &Stmt) -> Option<String> {
         "P" => format!("{pre} {POST}"),
         "N" => format!("{pre} nosuchcmd"),
         "X" => format!("{pre} /bin/ext"),
-        "C" => format!("{} {} {}", st.pre[1..].join(" "), st.pre.first()?, post),
+        "C" => format!(
+            "{} {} {}",
+            st.pre.get(1..)?.iter().map(|t| render_assign(t)).collect::<Vec<_>>().join(" "),
+            st.pre.first()?,
+            post
+        ),
+        "T" => format!("typeset {pre} {post}"),
+        "D" => match st.pre.first()?.as_str() {
+            "t" => format!("typeset -p {} {post}", st.pre[1..].join(" ")),
+            "e" => format!("export -p {post}"),
+            "r" => format!("readonly -p {post}"),
+            _ => return None,
+        },
+        "UV" => format!("unset -v {pre}"),
+        "RET" => "return 3".to_string(),
         "E" => format!("{pre} export {post}"),
         "EX" => format!("export {pre}"),
         "R" => format!("readonly {pre}"),
@@ -740,7 +770,7 @@ fn temp_ops(ts: &[String]) -> Vec<Op> {
     let mut v = vec![];
     for t in ts {
         let (n, val) = split_assign(t);
-        v.push(Op::As(n.clone(), Scope::Volatile, Value::Scalar(val.unwrap_or_default()), None));
+        v.push(Op::As(n.clone(), Scope::Volatile, parse_val(&val.unwrap_or_default()), None));
         v.push(Op::Ex(n, Scope::Volatile, true));
     }
     v
@@ -750,7 +780,7 @@ fn global_ops(ts: &[String]) -> Vec<Op> {
     ts.iter()
         .map(|t| {
             let (n, val) = split_assign(t);
-            Op::As(n, Scope::Global, Value::Scalar(val.unwrap_or_default()), None)
+            Op::As(n, Scope::Global, parse_val(&val.unwrap_or_default()), None)
         })
         .collect()
 }
@@ -782,10 +812,10 @@ impl NaiveScript<'_> {
     fn exp(&self) -> String {
         let mut f: Vec<String> = SCRIPT_NAMES
             .iter()
-            .map(|n| match self.n.get(n).and_then(|v| v.value) {
-                Some(Value::Scalar(x)) => x,
-                Some(Value::Array(xs)) => xs.join(" "),
-                None => "U".into(),
+            .flat_map(|n| match self.n.get(n).and_then(|v| v.value) {
+                Some(Value::Scalar(x)) => vec![x],
+                Some(Value::Array(xs)) => xs,
+                None => vec!["U".into()],
             })
             .collect();
         f.push(self.n.params().len().to_string());
@@ -795,8 +825,83 @@ impl NaiveScript<'_> {
     fn vline(&self, exp: &str) -> String {
         format!("v {} {}", exp, show_state(&self.n))
     }
+    /// the attribute loop of `typeset` for one operand
+    fn typeset_field(&mut self, sc: Scope, opts: &[String], t: &str) {
+        if self.run_ops(&operand_ops(sc, t)) {
+            return;
+        }
+        let n = split_assign(t).0;
+        for o in opts {
+            match o.as_str() {
+                "-r" => {
+                    self.n.apply(&Op::Ro(n.clone(), sc, 1));
+                }
+                "+r" => {
+                    if self.n.get(&n).map(|v| v.is_read_only()).unwrap_or(false) {
+                        return;
+                    }
+                }
+                "-x" => {
+                    self.n.apply(&Op::Ex(n.clone(), sc, true));
+                }
+                "+x" | "-X" => {
+                    self.n.apply(&Op::Ex(n.clone(), sc, false));
+                }
+                _ => {}
+            }
+        }
+    }
+    /// which variables `typeset -p` / `export -p` / `readonly -p` select, and the flags shown
+    fn print_lines(&self, b: &str, opts: &[String], names: &[String]) -> Vec<String> {
+        let sc = if b == "t" && !opts.iter().any(|o| o == "-g") { Scope::Local } else { Scope::Global };
+        let line = |n: &str, v: &Variable| -> Option<String> {
+            let pass = (b != "e" || v.is_exported)
+                && (b != "r" || v.is_read_only())
+                && opts.iter().all(|o| match o.as_str() {
+                    "-x" => v.is_exported,
+                    "+x" | "-X" => !v.is_exported,
+                    "-r" => v.is_read_only(),
+                    "+r" => !v.is_read_only(),
+                    _ => true,
+                });
+            let mut flags = String::new();
+            if b == "t" {
+                if v.is_read_only() {
+                    flags.push('r');
+                }
+                if v.is_exported {
+                    flags.push('x');
+                }
+            }
+            let is_array = matches!(v.value, Some(Value::Array(_)));
+            if !pass || (is_array && flags.is_empty() && b == "t") {
+                None
+            } else if flags.is_empty() {
+                Some(format!("p {n}"))
+            } else {
+                Some(format!("p {n} {flags}"))
+            }
+        };
+        if names.is_empty() {
+            SCRIPT_NAMES
+                .iter()
+                .filter_map(|n| self.n.get_scoped(n, sc).and_then(|v| line(n, &v)))
+                .collect()
+        } else if names.iter().any(|n| self.n.get_scoped(n, sc).is_none()) {
+            vec![]
+        } else {
+            names
+                .iter()
+                .filter_map(|n| self.n.get_scoped(n, sc).and_then(|v| line(n, &v)))
+                .collect()
+        }
+    }
     /// returns true when the script is aborted
     fn exec(&mut self, stmts: &[Stmt], depth: usize) -> bool {
+        self.exec3(stmts, depth) == 1
+    }
+    /// 0 = ran to the end, 1 = script aborted, 2 = `return`
+    fn exec3(&mut self, stmts: &[Stmt], depth: usize) -> u8 {
         for st in stmts {
             self.out.push(format!("@{}", st.kind));
             let with_export = |ts: &[String], f: &dyn Fn(String) -> Op| -> Vec<Op> {
@@ -816,7 +921,35 @@ impl NaiveScript<'_> {
                 }
                 "EX" => self.run_ops(&with_export(&st.pre, &|n| Op::Ex(n, Scope::Global, true))),
                 "R" => self.run_ops(&with_export(&st.pre, &|n| Op::Ro(n, Scope::Global, 1))),
-                "U" => {
+                "RET" => return 2,
+                "T" => {
+                    self.n.apply(&Op::PushV);
+                    let sc = if st.pre.iter().any(|o| o == "-g") { Scope::Global } else { Scope::Local };
+                    for t in &st.post {
+                        self.typeset_field(sc, &st.pre, t);
+                    }
+                    self.n.apply(&Op::Pop);
+                    false
+                }
+                "D" => {
+                    let Some(b) = st.pre.first() else {
+                        self.out.push("bad".into());
+                        return 1;
+                    };
+                    if b != "t" && st.post.iter().any(|n| self.n.get_scoped(n, Scope::Global).is_none()) {
+                        return 1;
+                    }
+                    if b == "t" {
+                        self.n.apply(&Op::PushV);
+                    }
+                    let lines = self.print_lines(b, &st.pre[1..], &st.post);
+                    self.out.extend(lines);
+                    if b == "t" {
+                        self.n.apply(&Op::Pop);
+                    }
+                    false
+                }
+                "U" | "UV" => {
                     let ops: Vec<Op> =
                         st.pre.iter().map(|n| Op::Un(n.clone(), Scope::Global)).collect();
                     self.run_ops(&ops)
@@ -856,7 +989,7 @@ impl NaiveScript<'_> {
                         .map(|(_, b)| b.clone())
                     else {
                         self.out.push("bad".into());
-                        return true;
+                        return 1;
                     };
                     let mut ops = vec![Op::PushV];
                     ops.extend(temp_ops(&st.pre[1..]));
@@ -867,7 +1000,7 @@ impl NaiveScript<'_> {
                         true
                     } else {
                         self.n.apply(&Op::PushR(st.post.clone()));
-                        if self.exec(&body, depth + 1) {
+                        if self.exec3(&body, depth + 1) == 1 {
                             true
                         } else {
                             self.n.apply(&Op::Pop);
@@ -882,12 +1015,12 @@ impl NaiveScript<'_> {
                 }
             };
             if aborted {
-                return true;
+                return 1;
             }
             let exp = self.exp();
             self.out.push(self.vline(&exp));
         }
-        false
+        0
     }
 }
 
@@ -944,6 +1077,34 @@ fn script_case(body: &str) -> (String, String) {
     let mut lines: Vec<String> = vec![];
     let mut ended = false;
     for l in outcome.stdout_str().lines() {
+        // output of `typeset -p` / `export -p` / `readonly -p`: keep which variable and which flags
+        // (the text format is C07's); `name=(…)` lines carry array values only
+        if let Some(rest) = ["typeset ", "export ", "readonly "].iter().find_map(|b| l.strip_prefix(b)) {
+            let mut flags = String::new();
+            let mut name = "";
+            for w in rest.split(' ') {
+                match w {
+                    "-r" => flags.push('r'),
+                    "-x" => flags.push('x'),
+                    "--" => {}
+                    w => {
+                        name = w.split('=').next().unwrap_or("");
+                        break;
+                    }
+                }
+            }
+            if SCRIPT_NAMES.contains(&name) {
+                lines.push(if flags.is_empty() { format!("p {name}") } else { format!("p {name} {flags}") });
+            }
+            continue;
+        }
+        // second line of `typeset IFS=' \t\n'`
+        if l == "'" {
+            continue;
+        }
+        if l.split_once("=(").map(|(n, _)| n.chars().all(|c| c.is_alphanumeric() || c == '_')).unwrap_or(false) {
+            continue;
+        }
         lines.push(l.to_string());
         if l == "@X" {
             lines.push(format!("e {}", execs.next().unwrap_or_else(|| "?".into())));
@@ -971,17 +1132,42 @@ fn script_case(body: &str) -> (String, String) {
 
 fn random_script(r: &mut Rng) -> String {
     let vals = ["1", "2", "T", "Q", ""];
-    let assign = |r: &mut Rng| format!("{}={}", r.pick(&SCRIPT_NAMES), r.pick(&vals));
+    let avals = ["1", "2", "T", "Q", "", "@a.b", "@", "@c"];
+    // assignments of the command language may be arrays; operands of built-ins are scalars
+    let operand_assign = |r: &mut Rng| format!("{}={}", r.pick(&SCRIPT_NAMES), r.pick(&vals));
+    let assign = |r: &mut Rng| format!("{}={}", r.pick(&SCRIPT_NAMES), r.pick(&avals));
     let temps = |r: &mut Rng| -> String {
         let k = [1, 1, 1, 2, 0][r.below(5)];
         (0..k).map(|_| assign(r)).collect::<Vec<_>>().join(" ")
     };
     let operand = |r: &mut Rng| {
-        if r.chance(1, 2) { assign(r) } else { r.pick(&SCRIPT_NAMES).to_string() }
+        if r.chance(1, 2) { operand_assign(r) } else { r.pick(&SCRIPT_NAMES).to_string() }
+    };
+    let operands = |r: &mut Rng| {
+        let k = 1 + r.below(2);
+        (0..k).map(|_| operand(r)).collect::<Vec<_>>().join(" ")
+    };
+    let names = |r: &mut Rng| {
+        let k = r.below(3);
+        (0..k).map(|_| r.pick(&SCRIPT_NAMES).to_string()).collect::<Vec<_>>().join(" ")
+    };
+    let topts = |r: &mut Rng| {
+        let all = ["-g", "-r", "-x", "-X", "+x", "+r"];
+        let k = [0, 1, 1, 1, 2, 2, 3][r.below(7)];
+        let mut v: Vec<&str> = vec![];
+        for _ in 0..k {
+            // read-only marks make most later statements abort: keep them rarer
+            let o = *r.pick(&all);
+            if o == "-r" && r.chance(1, 2) {
+                continue;
+            }
+            v.push(o);
+        }
+        v.join(" ")
     };
     let stmt = |r: &mut Rng, callee: Option<&str>, in_fn: bool| -> String {
         loop {
-            let k = r.below(if in_fn { 24 } else { 20 });
+            let k = r.below(if in_fn { 34 } else { 29 });
             let s = match k {
                 0 | 1 | 2 => format!("A {}", assign(r)),
                 3 | 4 => format!("P {}", temps(r)),
@@ -997,9 +1183,18 @@ fn random_script(r: &mut Rng) -> String {
                 },
                 11 => format!("N {}", temps(r)),
                 12 | 13 => format!("X {}", temps(r)),
-                14 => format!("EX {}", operand(r)),
+                14 => format!("EX {}", operands(r)),
                 15 => {
-                    if r.chance(1, 3) { format!("R {}", operand(r)) } else { continue }
+                    if r.chance(1, 3) { format!("R {}", operands(r)) } else { continue }
+                }
+                20 | 21 | 22 => format!("T {} -- {}", topts(r), operands(r)),
+                23 | 24 => format!("D t {} -- {}", topts(r).replace("-r", "+x"), names(r)),
+                25 => format!("D e -- {}", names(r)),
+                26 => format!("D r -- {}", names(r)),
+                27 => format!("UV {}", r.pick(&SCRIPT_NAMES)),
+                28 => format!("T {} -- {}", topts(r), operand(r)),
+                29 | 30 => {
+                    if r.chance(1, 2) { "RET".to_string() } else { continue }
                 }
                 16 | 17 => format!("U {}", r.pick(&SCRIPT_NAMES)),
                 18 => format!("G {}", operand(r)),
